@@ -916,6 +916,11 @@ class Interp:
                 return a.__sym_binop__(self, _OPSYM[type(op)], b, False)
             if hasattr(b, "__sym_binop__"):
                 return b.__sym_binop__(self, _OPSYM[type(op)], a, True)
+            if (self.cfg.get("ideal_floors") and isinstance(op, ast.Pow) and isinstance(a, int) and isinstance(b, int)
+                    and not isinstance(a, bool) and b < 0 and a != 0):
+                # stated idealisation: 10 ** -12 is the exact rational (natively a float literal, 2e-17 relative off)
+                self.path.note_assumption("IDEALISED: int ** negative-int taken as the exact rational (natively a rounded float)")
+                return Fraction(a) ** b
             try:
                 return _BINOPS[type(op)](a, b)
             except NativeLeak:
@@ -958,6 +963,12 @@ class Interp:
             x, y = as_real_term(A), as_real_term(B)
             self.check_div_zero(y, DEC in (ta, tb))
             return SV(x / y, FLT if both_int else rty)
+        if op == "//" and self.cfg.get("ideal_floors"):
+            # stated idealisation (C09 relational obligations): floor division taken as exact division
+            x, y = as_real_term(A), as_real_term(B)
+            self.check_div_zero(y, DEC in (ta, tb))
+            self.path.note_assumption("IDEALISED: a // b taken as the exact quotient a / b (floor dropped)")
+            return SV(x / y, DEC)
         if op in ("//", "%"):
             if both_int:
                 x, y = as_int_term(A), as_int_term(B)
@@ -1525,6 +1536,20 @@ class SVMethod:
 
 def _sv_sqrt(interp, sv):
     x = as_real_term(sv)
+    if interp.cfg.get("sqrt_uf"):
+        # relational obligations: the square root as a FUNCTION (equal arguments give the same term), plus the derived fact
+        # sqrt(x) * sqrt(y) == 1 whenever x * y == 1 for the arguments met on this path (a lemma about the real square root)
+        if interp.path.branch(x < 0):
+            raise ProgExc(decimal.InvalidOperation("sqrt of negative"))
+        f = interp.path.uf("sqrt_R", z3.RealSort(), z3.RealSort())
+        r = f(x)
+        interp.path.assume(z3.And(r >= 0, r * r == x), "Decimal.sqrt: exact real square root (rounding at 35 digits ignored)")
+        seen = interp.path.symtab.setdefault(("sqrt_uf_seen", interp.path.path_id), [])
+        for (x2, r2) in seen:
+            if not x.eq(x2):
+                interp.path.assume(z3.Implies(x * x2 == 1, r * r2 == 1), "lemma: sqrt(x) * sqrt(1/x) == 1 (real square root)")
+        seen.append((x, r))
+        return SV(r, sv.ty if sv.ty in (DEC, FLT) else DEC)
     r = interp.path.fresh_real("sqrt")
     if interp.path.branch(x < 0):
         raise ProgExc(decimal.InvalidOperation("sqrt of negative"))
@@ -1594,6 +1619,8 @@ def m_Decimal(interp, args, kwargs):
         if v.ty in (INT, BOOL):
             return SV(z3.ToReal(as_int_term(v)), DEC)
         return SV(v.t, DEC)  # Decimal(float): exact
+    if isinstance(v, Fraction):
+        return v          # exact rational (spec-side / idealised constants): stays exact
     try:
         return Decimal(v)
     except Exception as ex:
@@ -1625,6 +1652,10 @@ def m_int(interp, args, kwargs):
             return v
         if v.ty == BOOL:
             return SV(as_int_term(v), INT)
+        if interp.cfg.get("ideal_floors"):
+            # stated idealisation (C09 relational obligations): the truncation int(x) of a real is dropped
+            interp.path.note_assumption("IDEALISED: int(x) of a real taken as x (truncation dropped)")
+            return SV(v.t, DEC)
         return SV(real_trunc(v.t), INT)
     try:
         return int(*args, **kwargs)
@@ -1821,6 +1852,21 @@ def m_math_sqrt(interp, args, kwargs):
         raise ProgExc(ex)
 
 
+def m_math_isclose(interp, args, kwargs):
+    """math.isclose(a, b, rel_tol=1e-09, abs_tol=0.0): |a - b| <= max(rel_tol * max(|a|, |b|), abs_tol)"""
+    a, b = args[0], args[1]
+    rel = kwargs.get("rel_tol", 1e-09)
+    ab = kwargs.get("abs_tol", 0.0)
+    if not any(isinstance(x, SV) for x in (a, b, rel, ab)):
+        return math.isclose(a, b, rel_tol=rel, abs_tol=ab)
+    A, B = as_real_term(lift(a)), as_real_term(lift(b))
+    R, T = as_real_term(lift(rel)), as_real_term(lift(ab))
+    absv = lambda t: z3.If(t >= 0, t, -t)
+    d = absv(A - B)
+    big = z3.If(absv(A) >= absv(B), absv(A), absv(B))
+    return SV(z3.Or(d <= R * big, d <= T), BOOL)
+
+
 def m_math_log(interp, args, kwargs):
     """math.log(x[, base]) on a symbol: an unconstrained float (binary floating point log is only an estimate;
     contracts that depend on it must survive any value).  Domain error for x <= 0 as in CPython."""
@@ -1934,7 +1980,7 @@ DEFAULT_MODELS = {
     Decimal.sqrt: (lambda interp, args, kwargs: _sv_sqrt(interp, args[0]) if isinstance(args[0], SV) else args[0].sqrt()),
     Decimal: m_Decimal, int: m_int, float: m_float, bool: m_bool, str: m_str, abs: m_abs,
     min: _minmax(True), max: _minmax(False), sum: m_sum, len: m_len, isinstance: m_isinstance, type: m_type,
-    round: m_round, math.log: m_math_log, math.floor: m_math_floor, math.ceil: m_math_ceil, math.sqrt: m_math_sqrt, sorted: m_sorted,
+    round: m_round, math.isclose: m_math_isclose, math.log: m_math_log, math.floor: m_math_floor, math.ceil: m_math_ceil, math.sqrt: m_math_sqrt, sorted: m_sorted,
     list: m_list, tuple: m_tuple, any: m_any, all: m_all, print: m_noop, enumerate: m_enumerate, zip: m_zip,
     filter: m_filter, map: m_map,
 }
